@@ -31,6 +31,8 @@ pub enum Op {
     PushRegister(usize),
     PushValue(usize),
     PushFrame,
+    /// clone_data of an existing value (leaves its scratch cells in the data block: later compactions see them)
+    Clone(usize),
 }
 
 /// operations enabled with `n` existing values (operands are value ordinals)
@@ -41,6 +43,7 @@ fn enabled(n: usize) -> Vec<Op> {
         v.push(Op::List1(i));
         v.push(Op::PushRegister(i));
         v.push(Op::PushValue(i));
+        v.push(Op::Clone(i));
         for j in 0..n {
             v.push(Op::Pair(i, j));
             v.push(Op::List2(i, j));
@@ -126,6 +129,7 @@ fn apply(st: &mut St, op: Op) -> Result<(), String> {
             st.d.push_value_stack(val(st, i)).map_err(e)?;
             None
         }
+        Op::Clone(i) => Some(st.d.clone_data(val(st, i)).map_err(e)?),
         Op::PushFrame => {
             let ret = 1000 + st.steps;
             st.d.push_frame(ret).map_err(e)?;
@@ -515,6 +519,8 @@ fn parse_op(s: &str) -> Option<Op> {
         Op::PushValue(g(0))
     } else if s.starts_with("PushFrame") {
         Op::PushFrame
+    } else if s.starts_with("Clone") {
+        Op::Clone(g(0))
     } else {
         return None;
     })
